@@ -215,9 +215,12 @@ func runProgram(r *sim.Rng, nOps int) (ops []string, outs []string) {
 				ro.Discard()
 			}
 		case c < 98:
-			if len(stack) == 1 && version >= 2 && r.Chance(50) {
-				s.Reset()
-				emit("PReset", "OUnit")
+			if len(stack) == 1 && version >= 2 && r.Chance(70) {
+				// sometimes with pending (unflushed) writes: a rollback to the current version keeps them, a real one drops them
+				if r.Chance(60) {
+					s.Reset()
+					emit("PReset", "OUnit")
+				}
 				v := 1 + uint64(r.Intn(int(version)))
 				if e := s.Rollback(v); e != nil {
 					fail(fmt.Sprintf("PRollback %d", v), e)
